@@ -126,6 +126,8 @@ class Controller:
             rel = g
         elif pol == "random-one":
             rel = [self.rng.choice(g)]
+        elif pol == "stop-batch":
+            rel = g if len(g) <= 2 else self.rng.sample(g, self.rng.randint(2, len(g)))
         else:
             k = self.rng.randint(1, len(g))
             rel = self.rng.sample(g, k)
@@ -399,8 +401,16 @@ POLICIES = ["fifo", "lifo", "all", "random-one", "random-some", "random-some", "
 def gen_cases(seed, n, focus, max_tasks=7):
     rng = common.rng_for("e1", seed, focus)
     cases = sched.gen_cases(seed + 77, n, focus, ["blocked-fifo"], max_tasks)
+    if focus == "live":
+        # dedicated family: wide parallel fans under -j>=3 released in SIGSTOP batches (one SIGCHLD, many exits)
+        for i in range(max(4, n // 3)):
+            k = rng.randint(3, 6)
+            fan = [gen.mk_task(rng.choice(["", "a"]), "w%d" % j, rng.choice(["run_command", "run_experiment"]), par=True) for j in range(k)]
+            top = gen.mk_task("", "top", rng.choice(["group", "combine"]), [t["id"] for t in fan])
+            cases[i] = {"family": "e1-fan", "tasks": gen.dump(fan + [top]), "history": [{"target": "//:top", "jobs": rng.choice([3, 4, 6]), "again": False, "stop_early": False, "script": {}, "strategy": "blocked-fifo", "seed": rng.randrange(1 << 30)}],
+                        "e1_policy_forced": "stop-batch"}
     for c in cases:
-        c["e1_policy"] = rng.choice(POLICIES)
+        c["e1_policy"] = c.pop("e1_policy_forced", None) or rng.choice(POLICIES)
         for inv in c["history"]:
             # real faults only: exit codes and signals (launch failures are E2's)
             for k in list(inv.get("script", {})):
